@@ -104,7 +104,7 @@ impl Property for C06 {
         "exploration"
     }
     fn rule(&self) -> &'static str {
-        "A scenario = clean generated stream with whitespace-delimited garbage regions (1..3 tokens of bytes that cannot start a JSON value, incl. } ] , : . e E + and non-UTF-8 bytes) dropped into its gaps (also before the first and after the last value; in some scenarios the last token ends exactly at end of input, or the stream ends inside a truncated string/array/object; special tokens: byte-order marks, VT, FF, NEL, NBSP), arriving on stdin, as a file argument or as the only file of a directory argument (hook H2), with seeded short writes and EINTR on both sinks, x one of the four --on-error policies x a pipeline of any class (JSON rows with the default separator under the stdout policy) x a seeded delivery plan. Compared with executions of the same build on the garbage-free stream (same policy and under `ignore`) and, for `panic` and for the placement of diagnostics under `stdout`, on the clean prefix cut before each region. A region counts only if the event log shows that its first byte was consumed. evaluations = jawk executions; non-trivial = at least one garbage region was reached; distinct = distinct abstract traces."
+        "A scenario = clean generated stream with whitespace-delimited garbage regions (1..3 tokens of bytes that cannot start a JSON value, incl. } ] , : . e E + and non-UTF-8 bytes) dropped into its gaps (also before the first and after the last value; in some scenarios the last token ends exactly at end of input, or the stream ends inside a truncated string/array/object; special tokens: byte-order marks, VT, FF, NEL, NBSP), arriving on stdin, as a file argument or as the only file of a directory argument (hook H2), with seeded short writes and EINTR on both sinks, x one of the four --on-error policies x a pipeline of any class (JSON rows with the default separator under the stdout policy) x a seeded delivery plan. Compared with executions of the same build on the garbage-free stream (same policy and under `ignore`) and, for `panic` and for the placement of diagnostics under `stdout`, on the clean prefix cut before each region. Which regions a run got to: all of them without --take (the first under panic); with --take only those whose first byte was delivered and after which a row of a later value came out (how far jawk read ahead does not settle it). evaluations = jawk executions; non-trivial = at least one garbage region was reached; distinct = distinct abstract traces."
     }
     fn assumptions(&self) -> Vec<String> {
         vec![
@@ -282,7 +282,38 @@ impl Property for C06 {
         if matches!(r.outcome, Outcome::Panic(..)) {
             return None;
         }
-        let reached: Vec<&(usize, Vec<u8>)> = regs.iter().filter(|(o, _)| progressed > *o).collect();
+        // Which regions did the run get to? Without --take nothing but the policy can end a
+        // run before the end of the input: every region counts (the first one under `panic`).
+        // With --take the run may legitimately stop before a region. How far jawk *read* does
+        // not settle that (a reader may buffer ahead, or finish the value it is in): a region
+        // counts only if its first byte was delivered AND a row of a later value was emitted,
+        // i.e. more row bytes came out than the clean prefix before the region produces.
+        let has_take = has_opt(&case.opts, "--take");
+        let possible: Vec<&(usize, Vec<u8>)> = regs.iter().filter(|(o, _)| progressed > *o).collect();
+        let reached: Vec<&(usize, Vec<u8>)> = if !has_take {
+            if pol == Policy::Panic {
+                regs.iter().take(1).collect()
+            } else {
+                regs.iter().collect()
+            }
+        } else {
+            let row_bytes = if pol == Policy::Stdout {
+                strip_error_lines(&r.obs.stdout).0.len()
+            } else {
+                r.obs.stdout.len()
+            };
+            let mut v = Vec::new();
+            for reg in possible.iter().take(8) {
+                let p = ctx.exec(ref_spec(&with_policy(case, Policy::Ignore), &reg.1));
+                if p.outcome.is_ok() && row_bytes > p.obs.stdout.len() {
+                    v.push(*reg);
+                }
+            }
+            v
+        };
+        if reached.len() < possible.len() {
+            ctx.stats.probe("regions delivered but not certainly parsed (run may have stopped first)");
+        }
         ctx.stats.fault("garbage-region-reached", reached.len() as u64);
         ctx.stats.probe_n("garbage regions planned but never reached (run stopped first)", (regs.len() - reached.len()) as u64);
         if !reached.is_empty() {
@@ -343,7 +374,7 @@ impl Property for C06 {
                                 format!("{} malformed regions were reached but only {n} diagnostics were written", reached.len()),
                             );
                         }
-                        if reached.is_empty() && n > 0 {
+                        if possible.is_empty() && n > 0 {
                             return viol("C06.stderr", format!("diagnostics without any reached garbage: {}", show(&r.obs.stderr)));
                         }
                     }
@@ -369,10 +400,10 @@ impl Property for C06 {
                         format!("{} malformed regions were reached but only {} diagnostics were written", reached.len(), at.len()),
                     );
                 }
-                if reached.is_empty() && !at.is_empty() {
+                if possible.is_empty() && !at.is_empty() {
                     return viol("C06.stdout", "diagnostics without any reached garbage".to_string());
                 }
-                if class == Class::Stateless {
+                if class == Class::Stateless && reached.len() == possible.len() {
                     // placement: the diagnostics of a region sit after the rows of the values
                     // that precede it and before the row of the next value
                     let mut allowed = Vec::new();
@@ -407,7 +438,23 @@ impl Property for C06 {
                 }
             }
             Policy::Panic => {
-                if reached.is_empty() {
+                if reached.is_empty() && !possible.is_empty() && r.outcome.is_err() {
+                    // --take may or may not have stopped the run before the first region; it
+                    // did not: the rows must be those of the values preceding that region
+                    if class != Class::Buffering {
+                        let p = ctx.exec(ref_spec(&with_policy(case, Policy::Ignore), &regs[0].1));
+                        if p.outcome.is_ok() && r.obs.stdout != p.obs.stdout {
+                            return viol(
+                                "C06.panic",
+                                format!(
+                                    "rows emitted before the failure are not exactly the rows of the values preceding the first malformed byte: {} vs {}",
+                                    show(&r.obs.stdout),
+                                    show(&p.obs.stdout)
+                                ),
+                            );
+                        }
+                    }
+                } else if reached.is_empty() {
                     if !r.outcome.is_ok() {
                         return viol("C06.panic", format!("no garbage was reached but the run failed: {}", r.outcome.describe()));
                     }
@@ -418,21 +465,21 @@ impl Property for C06 {
                     if !r.outcome.is_err() {
                         return viol(
                             "C06.panic",
-                            format!("garbage at byte {} was consumed under panic but the run returned {}", reached[0].0, r.outcome.describe()),
+                            format!("garbage at byte {} was consumed under panic but the run returned {}", regs[0].0, r.outcome.describe()),
                         );
                     }
                     let tail_truncated = case.pieces.last().map_or(false, |p| p.tag == "truncated");
-                    if !tail_truncated && progressed > reached[0].0 + 1 + READ_AHEAD {
+                    if !tail_truncated && progressed > regs[0].0 + 1 + READ_AHEAD {
                         return viol(
                             "C06.panic",
-                            format!("run went on for {} bytes past the first malformed byte", progressed - reached[0].0),
+                            format!("run went on for {} bytes past the first malformed byte", progressed - regs[0].0),
                         );
                     }
-                    if progressed <= reached[0].0 + 2 {
+                    if progressed <= regs[0].0 + 2 {
                         ctx.stats.probe("panic stopped within the look-ahead byte");
                     }
                     if class != Class::Buffering {
-                        let p = ctx.exec(ref_spec(&with_policy(case, Policy::Ignore), &reached[0].1));
+                        let p = ctx.exec(ref_spec(&with_policy(case, Policy::Ignore), &regs[0].1));
                         if !p.outcome.is_ok() {
                             ctx.stats.invalid = true;
                             ctx.jawk_panic = None;
